@@ -19,6 +19,7 @@ EXPLANATION = (
     "answer over all histories are not decided.")
 EXPLANATION += " Also decided: every index range scan of a query is bounded by filter.until() itself and by filter.since() or the raised lower bound."
 EXPLANATION += " Also decided: the offset of every event a plan inserts is an index iterator's entry or the id index's entry for a filter id - a plan fed by a single-answer lookup of the store is reported."
+EXPLANATION += " Also decided: the scrape gate's window is the directed saturating difference min(until, now) - since; the query's screen wrapper turns an event down only for the caller's Mismatch / Redacted."
 ASSUMPTIONS = ["an LMDB range over a key with a reversed-time component yields newest first"]
 
 FIND = "pocket_db::Store::find_events"
